@@ -294,6 +294,20 @@ func catalogue() []entry {
 				}
 			}}
 		}),
+		E("large-input", []string{}, func(g simkit.G, p *pool) call {
+			if p.huge == nil {
+				xs := p.fl[2]
+				return call{desc: "no huge slice in this pool: vec.Sum(fl[2])", run: func(r *R) { r.F(vec.Sum(xs)) }}
+			}
+			xs := p.huge
+			return call{desc: fmt.Sprintf("linear-time statistics of the %d-element slice", len(xs)), run: func(r *R) {
+				s := stats.Sample{Xs: xs}
+				lo, hi := stats.Bounds(xs)
+				r.F(vec.Sum(xs)).F(stats.Mean(xs)).F(stats.Variance(xs)).F(lo).F(hi).F(s.Sum()).F(s.Weight()).F(s.Mean())
+				m := vec.Map(func(x float64) float64 { return x * 0.5 }, xs)
+				r.F(vec.Sum(m)).F(s.Quantile(0.37))
+			}}
+		}),
 		E("vec", []string{"vec.Sum", "vec.Map", "vec.Vectorize", "vec.Concat"}, func(g simkit.G, p *pool) call {
 			i, j := g.Intn(len(p.fl)), g.Intn(len(p.fl))
 			return call{desc: fmt.Sprintf("fl[%d], fl[%d]", i, j), run: func(r *R) {
